@@ -89,3 +89,54 @@ def random_text_lines(rnd):
         pieces.append(line + rnd.choice([b"\n", b"\n", b"\r\n", b"\n\n"]))
     tail = rnd.choice([b"", b"x", b"tail", b"\r"])
     return b"".join(pieces) + tail
+
+
+# ---------------------------------------------------------------- parser-level inputs
+KIND_ENTRIES = {
+    "ddl": ["ParseDDL", "ParseStatement"],
+    "dml": ["ParseDML", "ParseStatement"],
+    "expr": ["ParseExpr"],
+    "query": ["ParseQuery", "ParseStatement"],
+    "statement": ["ParseStatement"],
+}
+LIST_ENTRY = {"ddl": "ParseDDLs", "dml": "ParseDMLs", "query": "ParseStatements", "statement": "ParseStatements"}
+TYPES = [b"INT64", b"STRING(MAX)", b"ARRAY<INT64>", b"STRUCT<a INT64, b ARRAY<STRING(10)>>", b"ARRAY<STRUCT<x BYTES(MAX)>>",
+         b"STRUCT<>", b"p.q.R", b"ARRAY<ARRAY<FLOAT64>>", b"NUMERIC", b"INTERVAL", b"STRUCT<ARRAY<INT64>>"]
+
+
+def parser_cases(rnd, n_mut, n_soup, n_lists, valid_only=False):
+    """(entry, bytes) cases: every corpus file under every matching entry point (seed independent), plus seeded
+    mutations (error recovery, Bad nodes), token soups, ';'-joined lists and type expressions"""
+    out = []
+    corp = corpus()
+    for k, nm, s in corp:
+        for e in KIND_ENTRIES[k]:
+            out.append((e, s))
+    for t in TYPES:
+        out.append(("ParseType", t))
+    if not valid_only:
+        for _ in range(n_mut):
+            k, nm, s = rnd.choice(corp)
+            for _ in range(rnd.randrange(1, 3)):
+                s = mutate(rnd, s)
+            out.append((rnd.choice(KIND_ENTRIES[k]), s))
+        for _ in range(n_soup):
+            out.append((rnd.choice(["ParseExpr", "ParseQuery", "ParseStatement", "ParseType", "ParseDDL", "ParseDML"]),
+                        token_soup(rnd, rnd.randrange(1, 14))))
+    bykind = {}
+    for k, nm, s in corp:
+        bykind.setdefault(k, []).append(s)
+    for _ in range(n_lists):
+        k = rnd.choice(["ddl", "dml", "query", "statement"])
+        parts = [rnd.choice(bykind[k]).strip() for _ in range(rnd.randrange(0, 4))]
+        s = (b";" + rnd.choice([b"", b" ", b"\n"])).join(parts)
+        if rnd.random() < 0.3:
+            s += b";"
+        if not valid_only and rnd.random() < 0.2:
+            s = mutate(rnd, s)
+        out.append((LIST_ENTRY[k], s))
+    return out
+
+
+def case_lines(cases):
+    return "".join("%s %s\n" % (e, s.hex() if s else "-") for (e, s) in cases)
